@@ -1,6 +1,1165 @@
-//! Type-erasure of the emitted TypeScript and execution under node (to be filled in).
-use super::Run;
+//! Type-erasure of the emitted TypeScript and execution under node.
+//!
+//! node 20 cannot run TypeScript, so the text printed by `lir::Sources::pretty_print`
+//! (crates/samlang-ast/src/lir.rs) is parsed with a strict line grammar that mirrors that printer,
+//! every type position is cut out, and the remaining JavaScript is run in a fresh `vm` context.
+//! Anything that is not in the grammar is an `Err`; nothing is guessed.
+//!
+//! Accepted grammar (`T` = type, `A` = atom, indentation is exactly two spaces per open block):
+//! ```text
+//! file     := (top "\n")*
+//! top      := ""                                                (blank)
+//!           | "type " Id " = " T ";"                            (dropped)
+//!           | "const " Id " = (" [pat ": " T {", " pat ": " T}] "): " T " => " body     (prelude helper, one line)
+//!           | "const " Id ": " T " = [0, " Template " as unknown as number];"           (string constant)
+//!           | "function " Id "(" [Id ": " T {", " Id ": " T}] "): " T " {"  stmt*  "  return " A ";"  "}"
+//!           | Id "();"                                          (call of main)
+//! pat      := Id | "[" {" " | "," | Id} "]"
+//! body     := any text without "`", ":", "?" outside '..' / ".." strings, in which every
+//!             " as " T is dropped (e.g. `{ throw Error(v as unknown as string); };`)
+//! stmt     := "let " Id " = typeof " A " === 'object';"
+//!           | "let " Id " = !" A ";"
+//!           | "let " Id " = Math.floor(" A " / " A ");"
+//!           | "let " Id " = Number(" A " " cmp " " A ");"     cmp := < <= > >= == !=
+//!           | "let " Id " = Number(" A "[1] " ("===" | "!==") " " A "[1]);"
+//!           | "let " Id " = " A " " bin " " A ";"               bin := * % + - & | << >>> ^
+//!           | "let " Id " = " A " as unknown as " T ";"
+//!           | "let " Id " = " free ";"                          (fallback, see `free_expr`)
+//!           | "let " Id ": " T ";"
+//!           | "let " Id ": " T " = undefined as any;"
+//!           | "let " Id ": " T " = " A ";"
+//!           | "let " Id ": " T " = " A "[" digits "];"
+//!           | "let " Id ": " T " = " A "(" [A {", " A}] ");"
+//!           | "let " Id ": " T " = [" [A {", " A}] "];"
+//!           | "var " Id ": " T ";"
+//!           | A "(" [A {", " A}] ");"
+//!           | Id " = " A ";"
+//!           | "if (" ["!"] A ") {" stmt* ["} else {" stmt*] "}"
+//!           | "while (true) {" stmt* "}"
+//!           | "break;"                                          (only inside a while)
+//! A        := ["-"] digits | Id
+//! Id       := [A-Za-z_$][A-Za-z0-9_$]*
+//! T        := prim {"[]"}
+//! prim     := Id | "[" [T {", " T}] "]" | "(" [Id ": " T {", " Id ": " T}] ") => " T
+//! Template := "`" { char | "\" char | "${" js-tokens "}" } "`"   (copied verbatim, may span lines)
+//! ```
+use super::{End, Run};
+use std::io::Read;
+use std::sync::atomic::{AtomicUsize, Ordering};
 
-pub fn run_ts_batch(_programs: &[String], _timeout_ms: u64) -> Result<Vec<Run>, String> {
-  Err("ts_run not implemented".to_string())
+// ---------------------------------------------------------------------------------------------
+// eraser
+// ---------------------------------------------------------------------------------------------
+
+#[derive(Clone, Copy, PartialEq, Eq, Debug)]
+enum Blk {
+  Fn,
+  If,
+  Else,
+  While,
+}
+
+struct Cur<'a> {
+  t: &'a str,
+  b: &'a [u8],
+  i: usize,
+  /// byte ranges of `t` that are type syntax and get dropped
+  cuts: Vec<(usize, usize)>,
+}
+
+fn is_id_start(c: u8) -> bool {
+  c.is_ascii_alphabetic() || c == b'_' || c == b'$'
+}
+
+fn is_id_char(c: u8) -> bool {
+  c.is_ascii_alphanumeric() || c == b'_' || c == b'$'
+}
+
+const MAX_TYPE_DEPTH: usize = 256;
+
+impl<'a> Cur<'a> {
+  fn new(t: &'a str) -> Cur<'a> {
+    Cur { t, b: t.as_bytes(), i: 0, cuts: vec![] }
+  }
+
+  fn err<T>(&self, what: &str) -> Result<T, String> {
+    self.err_at(self.i, what)
+  }
+
+  fn err_at<T>(&self, at: usize, what: &str) -> Result<T, String> {
+    let at = at.min(self.b.len());
+    let line = self.b[..at].iter().filter(|c| **c == b'\n').count() + 1;
+    let ls = self.b[..at].iter().rposition(|c| *c == b'\n').map(|p| p + 1).unwrap_or(0);
+    let le = self.b[at..].iter().position(|c| *c == b'\n').map(|p| p + at).unwrap_or(self.b.len());
+    let mut text = String::from_utf8_lossy(&self.b[ls..le]).to_string();
+    if text.len() > 160 {
+      let mut cut = 160;
+      while !text.is_char_boundary(cut) {
+        cut -= 1;
+      }
+      text.truncate(cut);
+      text.push_str("...");
+    }
+    Err(format!("line {line} col {}: {what} in `{text}`", at - ls + 1))
+  }
+
+  fn peek(&self) -> Option<u8> {
+    self.b.get(self.i).copied()
+  }
+
+  fn at(&self, s: &str) -> bool {
+    self.b[self.i..].starts_with(s.as_bytes())
+  }
+
+  fn eat(&mut self, s: &str) -> bool {
+    if self.at(s) {
+      self.i += s.len();
+      true
+    } else {
+      false
+    }
+  }
+
+  fn expect(&mut self, s: &str) -> Result<(), String> {
+    if self.eat(s) {
+      Ok(())
+    } else {
+      self.err(&format!("expected {s:?}"))
+    }
+  }
+
+  fn at_eol(&self) -> bool {
+    matches!(self.peek(), None | Some(b'\n'))
+  }
+
+  /// end of the current line: consumes the newline if there is one
+  fn expect_eol(&mut self) -> Result<(), String> {
+    match self.peek() {
+      None => Ok(()),
+      Some(b'\n') => {
+        self.i += 1;
+        Ok(())
+      }
+      _ => self.err("expected end of line"),
+    }
+  }
+
+  fn ident(&mut self) -> Result<&'a str, String> {
+    let s = self.i;
+    match self.peek() {
+      Some(c) if is_id_start(c) => self.i += 1,
+      _ => return self.err("expected identifier"),
+    }
+    while matches!(self.peek(), Some(c) if is_id_char(c)) {
+      self.i += 1;
+    }
+    Ok(&self.t[s..self.i])
+  }
+
+  fn digits(&mut self) -> Result<(), String> {
+    let s = self.i;
+    while matches!(self.peek(), Some(c) if c.is_ascii_digit()) {
+      self.i += 1;
+    }
+    if s == self.i {
+      return self.err("expected digits");
+    }
+    Ok(())
+  }
+
+  /// `A := ["-"] digits | Id`
+  fn atom(&mut self) -> Result<(), String> {
+    match self.peek() {
+      Some(b'-') => {
+        self.i += 1;
+        self.digits()
+      }
+      Some(c) if c.is_ascii_digit() => self.digits(),
+      _ => self.ident().map(|_| ()),
+    }
+  }
+
+  /// `[A {", " A}]` up to (not including) `close`
+  fn atom_list(&mut self, close: &str) -> Result<(), String> {
+    if self.at(close) {
+      return Ok(());
+    }
+    loop {
+      self.atom()?;
+      if !self.eat(", ") {
+        return Ok(());
+      }
+    }
+  }
+
+  fn skip_type(&mut self, depth: usize) -> Result<(), String> {
+    if depth > MAX_TYPE_DEPTH {
+      return self.err("type nested too deeply");
+    }
+    if self.eat("(") {
+      if !self.eat(")") {
+        loop {
+          self.ident()?;
+          self.expect(": ")?;
+          self.skip_type(depth + 1)?;
+          if self.eat(", ") {
+            continue;
+          }
+          self.expect(")")?;
+          break;
+        }
+      }
+      self.expect(" => ")?;
+      // the return type extends as far as possible, so no `[]` suffix applies to the arrow itself
+      return self.skip_type(depth + 1);
+    }
+    if self.eat("[") {
+      if !self.eat("]") {
+        loop {
+          self.skip_type(depth + 1)?;
+          if self.eat(", ") {
+            continue;
+          }
+          self.expect("]")?;
+          break;
+        }
+      }
+    } else {
+      self.ident().map_err(|_| self.err::<()>("expected a type").unwrap_err())?;
+    }
+    while self.eat("[]") {}
+    Ok(())
+  }
+
+  /// `": " T` — dropped
+  fn annotation(&mut self) -> Result<(), String> {
+    let s = self.i;
+    self.expect(": ")?;
+    self.skip_type(0)?;
+    self.cuts.push((s, self.i));
+    Ok(())
+  }
+
+  /// `" as unknown as " T` — dropped
+  fn cast_suffix(&mut self) -> Result<(), String> {
+    let s = self.i;
+    self.expect(" as unknown as ")?;
+    self.skip_type(0)?;
+    self.cuts.push((s, self.i));
+    Ok(())
+  }
+
+  /// A template literal starting at the opening backtick; copied verbatim. Lexed the way a
+  /// JavaScript scanner would (escapes, `${ }` substitutions with nested strings / templates /
+  /// comments), because the printer pastes the samlang literal text between the backticks
+  /// without escaping anything.
+  fn template(&mut self, depth: usize) -> Result<(), String> {
+    if depth > 64 {
+      return self.err("template nested too deeply");
+    }
+    let start = self.i;
+    self.expect("`")?;
+    loop {
+      match self.peek() {
+        None => return self.err_at(start, "unterminated template literal"),
+        Some(b'\\') => {
+          if self.i + 1 >= self.b.len() {
+            return self.err_at(start, "unterminated template literal");
+          }
+          self.i += 2;
+        }
+        Some(b'`') => {
+          self.i += 1;
+          return Ok(());
+        }
+        Some(b'$') if self.b.get(self.i + 1) == Some(&b'{') => {
+          self.i += 2;
+          self.substitution(depth, start)?;
+        }
+        Some(_) => self.i += 1,
+      }
+    }
+  }
+
+  /// the inside of `${ ... }` up to and including the matching `}`; copied verbatim
+  fn substitution(&mut self, depth: usize, start: usize) -> Result<(), String> {
+    let mut braces = 0usize;
+    loop {
+      match self.peek() {
+        None => return self.err_at(start, "unterminated ${ in template literal"),
+        Some(b'{') => {
+          braces += 1;
+          self.i += 1;
+        }
+        Some(b'}') => {
+          self.i += 1;
+          if braces == 0 {
+            return Ok(());
+          }
+          braces -= 1;
+        }
+        Some(b'`') => self.template(depth + 1)?,
+        Some(q @ (b'\'' | b'"')) => {
+          let s = self.i;
+          self.i += 1;
+          loop {
+            match self.peek() {
+              None | Some(b'\n') => return self.err_at(s, "unterminated string inside ${ }"),
+              Some(b'\\') => self.i += 2,
+              Some(c) if c == q => {
+                self.i += 1;
+                break;
+              }
+              Some(_) => self.i += 1,
+            }
+          }
+        }
+        Some(b'/') => {
+          if self.at("//") {
+            while !self.at_eol() {
+              self.i += 1;
+            }
+          } else if self.at("/*") {
+            match self.t[self.i + 2..].find("*/") {
+              Some(p) => self.i += 2 + p + 2,
+              None => return self.err("unterminated comment inside ${ }"),
+            }
+          } else {
+            // division or regular expression literal: cannot be told apart without a parser
+            return self.err("unsupported: '/' inside ${ } of a template literal");
+          }
+        }
+        Some(_) => self.i += 1,
+      }
+    }
+  }
+
+  /// Fallback for the right-hand side of an un-annotated `let x = ...;` / `x = ...;`: an expression
+  /// that provably contains no TypeScript-only syntax, so nothing has to be erased (keeps the
+  /// eraser usable when the printer's arithmetic forms change, e.g. `Math.trunc(a / b)`,
+  /// `(a + b) | 0`). Only identifiers, integers, `'object'`, spaces and `+-*/%&|^<>=!()[],.~`;
+  /// no `as`/`satisfies` word, no `<` or `>` touching an identifier (type arguments / assertions),
+  /// no `//` or `/*`. Setting the environment variable `VH_TS_STRICT` disables this fallback.
+  fn free_expr(&mut self) -> Result<(), String> {
+    if std::env::var_os("VH_TS_STRICT").is_some() {
+      return self.err("not one of the printer's expression forms (VH_TS_STRICT is set)");
+    }
+    let s = self.i;
+    let mut parens = 0i32;
+    loop {
+      let Some(c) = self.peek() else { return self.err("expected ';'") };
+      match c {
+        b';' => break,
+        b'\n' => return self.err("expected ';'"),
+        b'\'' => self.expect("'object'")?,
+        c if is_id_start(c) => {
+          let before = self.i;
+          let id = self.ident()?;
+          if matches!(id, "as" | "satisfies" | "is" | "keyof" | "infer" | "function" | "new" | "class") {
+            return self.err_at(before, "unsupported word in expression");
+          }
+          if before > s && matches!(self.b[before - 1], b'<' | b'>') {
+            return self.err_at(before, "unsupported '<'/'>' next to an identifier");
+          }
+          if matches!(self.peek(), Some(b'<' | b'>')) {
+            return self.err("unsupported '<'/'>' next to an identifier");
+          }
+        }
+        c if c.is_ascii_digit() => self.digits()?,
+        b'/' => {
+          if self.at("//") || self.at("/*") {
+            return self.err("unsupported comment");
+          }
+          self.i += 1;
+        }
+        b'(' | b'[' => {
+          parens += 1;
+          self.i += 1;
+        }
+        b')' | b']' => {
+          parens -= 1;
+          if parens < 0 {
+            return self.err("unbalanced bracket");
+          }
+          self.i += 1;
+        }
+        b' ' | b'+' | b'-' | b'*' | b'%' | b'&' | b'|' | b'^' | b'<' | b'>' | b'=' | b'!' | b',' | b'.' | b'~' => {
+          self.i += 1
+        }
+        _ => return self.err("unsupported character in expression"),
+      }
+    }
+    if parens != 0 {
+      return self.err("unbalanced bracket");
+    }
+    if self.i == s {
+      return self.err("expected expression");
+    }
+    Ok(())
+  }
+
+  /// runs `f`; on failure rewinds (position and cuts) and reports the failure
+  fn attempt(&mut self, f: impl FnOnce(&mut Self) -> Result<(), String>) -> Result<(), String> {
+    let (i, n) = (self.i, self.cuts.len());
+    let r = f(self);
+    if r.is_err() {
+      self.i = i;
+      self.cuts.truncate(n);
+    }
+    r
+  }
+
+  // ------------------------------------------------------------------ top level
+
+  fn type_line(&mut self) -> Result<(), String> {
+    let s = self.i;
+    self.expect("type ")?;
+    self.ident()?;
+    self.expect(" = ")?;
+    self.skip_type(0)?;
+    self.expect(";")?;
+    self.cuts.push((s, self.i));
+    self.expect_eol()
+  }
+
+  fn const_line(&mut self) -> Result<(), String> {
+    self.expect("const ")?;
+    self.ident()?;
+    if self.at(": ") {
+      // const GLOBAL_STRING_n: _Str = [0, `...` as unknown as number];
+      self.annotation()?;
+      self.expect(" = [0, ")?;
+      self.template(0)?;
+      let s = self.i;
+      if !self.eat(" as unknown as number") {
+        return self.err("expected \" as unknown as number];\" after the template literal (a backtick or ${ in the string constant changes how the line lexes)");
+      }
+      self.cuts.push((s, self.i));
+      self.expect("];")?;
+      return self.expect_eol();
+    }
+    // prelude helper: const f = (pats): T => body
+    self.expect(" = (")?;
+    if !self.eat(")") {
+      loop {
+        if self.eat("[") {
+          loop {
+            match self.peek() {
+              Some(b']') => {
+                self.i += 1;
+                break;
+              }
+              Some(b' ' | b',') => self.i += 1,
+              Some(c) if is_id_start(c) => {
+                self.ident()?;
+              }
+              _ => return self.err("unsupported parameter pattern"),
+            }
+          }
+        } else {
+          self.ident()?;
+        }
+        self.annotation()?;
+        if self.eat(", ") {
+          continue;
+        }
+        self.expect(")")?;
+        break;
+      }
+    }
+    self.annotation()?;
+    self.expect(" => ")?;
+    self.helper_body()?;
+    self.expect_eol()
+  }
+
+  /// body of a one-line prelude helper, up to the end of the line
+  fn helper_body(&mut self) -> Result<(), String> {
+    let start = self.i;
+    let mut depth = 0i32;
+    while let Some(c) = self.peek() {
+      match c {
+        b'\n' => break,
+        q @ (b'\'' | b'"') => {
+          let s = self.i;
+          self.i += 1;
+          loop {
+            match self.peek() {
+              None | Some(b'\n') => return self.err_at(s, "unterminated string"),
+              Some(b'\\') => self.i += 2,
+              Some(c) if c == q => {
+                self.i += 1;
+                break;
+              }
+              Some(_) => self.i += 1,
+            }
+          }
+        }
+        b'`' | b':' | b'?' | b'\\' | b'#' | b'@' => return self.err("unsupported character in helper body"),
+        b'/' if self.at("//") || self.at("/*") => return self.err("unsupported comment in helper body"),
+        b'(' | b'[' | b'{' => {
+          depth += 1;
+          self.i += 1;
+        }
+        b')' | b']' | b'}' => {
+          depth -= 1;
+          if depth < 0 {
+            return self.err("unbalanced bracket in helper body");
+          }
+          self.i += 1;
+        }
+        c if is_id_start(c) => {
+          let before = self.i;
+          let id = self.ident()?;
+          if id == "as" {
+            // `<expr> as T`
+            if before == start || self.b[before - 1] != b' ' || !self.eat(" ") {
+              return self.err_at(before, "unsupported use of `as`");
+            }
+            self.skip_type(0)?;
+            self.cuts.push((before - 1, self.i));
+          } else if matches!(id, "satisfies" | "function" | "class" | "interface" | "enum" | "declare" | "type") {
+            return self.err_at(before, "unsupported word in helper body");
+          } else if matches!(self.peek(), Some(b'<')) || (before > start && self.b[before - 1] == b'<') {
+            return self.err_at(before, "unsupported '<' next to an identifier in helper body");
+          }
+        }
+        c if c.is_ascii_digit() => self.digits()?,
+        c if c.is_ascii() => self.i += 1,
+        _ => return self.err("non-ASCII character in helper body"),
+      }
+    }
+    if depth != 0 {
+      return self.err("unbalanced bracket in helper body");
+    }
+    if self.i == start || self.b[self.i - 1] != b';' {
+      return self.err("helper must end with ';'");
+    }
+    Ok(())
+  }
+
+  fn function(&mut self) -> Result<(), String> {
+    self.expect("function ")?;
+    self.ident()?;
+    self.expect("(")?;
+    if !self.eat(")") {
+      loop {
+        self.ident()?;
+        self.annotation()?;
+        if self.eat(", ") {
+          continue;
+        }
+        self.expect(")")?;
+        break;
+      }
+    }
+    self.annotation()?;
+    self.expect(" {")?;
+    self.expect_eol()?;
+    let mut stack = vec![Blk::Fn];
+    let mut returned = false;
+    while !stack.is_empty() {
+      if self.peek().is_none() {
+        return self.err("unexpected end of text inside a function");
+      }
+      // closers sit one level further out
+      let closing = {
+        let mut j = self.i;
+        while self.b.get(j) == Some(&b' ') {
+          j += 1;
+        }
+        self.b.get(j) == Some(&b'}')
+      };
+      let level = if closing { stack.len() - 1 } else { stack.len() };
+      for _ in 0..level {
+        self.expect("  ")?;
+      }
+      if self.peek() == Some(b' ') {
+        return self.err("unexpected indentation");
+      }
+      if closing {
+        if self.eat("} else {") {
+          if *stack.last().unwrap() != Blk::If {
+            return self.err("`else` without `if`");
+          }
+          *stack.last_mut().unwrap() = Blk::Else;
+        } else {
+          self.expect("}")?;
+          if stack.len() == 1 && !returned {
+            return self.err("function body does not end with `return`");
+          }
+          stack.pop();
+        }
+        self.expect_eol()?;
+        continue;
+      }
+      if returned {
+        return self.err("statement after `return`");
+      }
+      if self.eat("return ") {
+        if stack.len() != 1 {
+          return self.err("`return` inside a nested block");
+        }
+        self.atom()?;
+        self.expect(";")?;
+        returned = true;
+      } else if self.eat("if (") {
+        self.eat("!");
+        self.atom()?;
+        self.expect(") {")?;
+        stack.push(Blk::If);
+      } else if self.eat("while (true) {") {
+        stack.push(Blk::While);
+      } else if self.eat("break;") {
+        if !stack.contains(&Blk::While) {
+          return self.err("`break` outside of a loop");
+        }
+      } else if self.eat("var ") {
+        self.ident()?;
+        self.annotation()?;
+        self.expect(";")?;
+      } else if self.eat("let ") {
+        self.let_stmt()?;
+      } else {
+        // call without result, or assignment
+        self.ident()?;
+        if self.eat("(") {
+          self.atom_list(")")?;
+          self.expect(");")?;
+        } else {
+          self.expect(" = ")?;
+          if self.attempt(|c| {
+            c.atom()?;
+            c.expect(";")
+          })
+          .is_err()
+          {
+            self.free_expr()?;
+            self.expect(";")?;
+          }
+        }
+      }
+      self.expect_eol()?;
+    }
+    Ok(())
+  }
+
+  fn let_stmt(&mut self) -> Result<(), String> {
+    self.ident()?;
+    if self.at(": ") {
+      self.annotation()?;
+      if self.eat(";") {
+        return Ok(());
+      }
+      self.expect(" = ")?;
+      if self.at("undefined as any;") {
+        self.i += "undefined".len();
+        let s = self.i;
+        self.i += " as any".len();
+        self.cuts.push((s, self.i));
+        return self.expect(";");
+      }
+      if self.eat("[") {
+        self.atom_list("]")?;
+        return self.expect("];");
+      }
+      self.atom()?;
+      if self.eat("[") {
+        self.digits()?;
+        return self.expect("];");
+      }
+      if self.eat("(") {
+        self.atom_list(")")?;
+        return self.expect(");");
+      }
+      return self.expect(";");
+    }
+    self.expect(" = ")?;
+    let strict = self.attempt(|c| {
+      if c.eat("typeof ") {
+        c.atom()?;
+        return c.expect(" === 'object';");
+      }
+      if c.eat("!") {
+        c.atom()?;
+        return c.expect(";");
+      }
+      if c.eat("Math.floor(") {
+        c.atom()?;
+        c.expect(" / ")?;
+        c.atom()?;
+        return c.expect(");");
+      }
+      if c.eat("Number(") {
+        c.atom()?;
+        if c.eat("[1] ") {
+          if !(c.eat("===") || c.eat("!==")) {
+            return c.err("expected === or !==");
+          }
+          c.expect(" ")?;
+          c.atom()?;
+          return c.expect("[1]);");
+        }
+        c.expect(" ")?;
+        if !["<=", ">=", "==", "!=", "<", ">"].iter().any(|op| c.eat(op)) {
+          return c.err("expected a comparison operator");
+        }
+        c.expect(" ")?;
+        c.atom()?;
+        return c.expect(");");
+      }
+      c.atom()?;
+      if c.at(" as ") {
+        c.cast_suffix()?;
+        return c.expect(";");
+      }
+      c.expect(" ")?;
+      if !["<<", ">>>", "*", "%", "+", "-", "&", "|", "^"].iter().any(|op| c.eat(op)) {
+        return c.err("expected a binary operator");
+      }
+      c.expect(" ")?;
+      c.atom()?;
+      c.expect(";")
+    });
+    match strict {
+      Ok(()) => Ok(()),
+      Err(first) => {
+        if self.attempt(|c| {
+          c.free_expr()?;
+          c.expect(";")
+        })
+        .is_err()
+        {
+          return Err(first);
+        }
+        Ok(())
+      }
+    }
+  }
+
+  fn file(&mut self) -> Result<(), String> {
+    while self.peek().is_some() {
+      if self.at("type ") {
+        self.type_line()?;
+      } else if self.at("const ") {
+        self.const_line()?;
+      } else if self.at("function ") {
+        self.function()?;
+      } else if self.at_eol() {
+        self.expect_eol()?;
+      } else {
+        // `main();`
+        self.ident()?;
+        self.expect("();")?;
+        self.expect_eol()?;
+      }
+    }
+    Ok(())
+  }
+}
+
+/// TypeScript -> JavaScript; `Err` if the text falls outside the grammar the printer emits.
+/// Line numbers are preserved (erased `type` lines become empty lines).
+pub fn erase_types(ts: &str) -> Result<String, String> {
+  let mut c = Cur::new(ts);
+  c.file()?;
+  let mut out = String::with_capacity(ts.len());
+  let mut at = 0;
+  for (s, e) in &c.cuts {
+    debug_assert!(*s >= at && e >= s);
+    out.push_str(&ts[at..*s]);
+    at = *e;
+  }
+  out.push_str(&ts[at..]);
+  Ok(out)
+}
+
+// ---------------------------------------------------------------------------------------------
+// node
+// ---------------------------------------------------------------------------------------------
+
+const DRIVER: &str = include_str!("ts_driver.js");
+const TMP_ROOT: &str = "/verif/out/tmp";
+/// captured output above this many bytes ends the program with `End::Budget`
+const MAX_OUT_BYTES: u64 = 64 << 20;
+
+static COUNTER: AtomicUsize = AtomicUsize::new(0);
+
+struct TmpDir(std::path::PathBuf);
+
+impl TmpDir {
+  fn new() -> Result<TmpDir, String> {
+    let n = COUNTER.fetch_add(1, Ordering::SeqCst);
+    let p = std::path::PathBuf::from(format!("{TMP_ROOT}/ts-{}-{n}", std::process::id()));
+    std::fs::create_dir_all(&p).map_err(|e| format!("create {}: {e}", p.display()))?;
+    Ok(TmpDir(p))
+  }
+}
+
+impl Drop for TmpDir {
+  fn drop(&mut self) {
+    let _ = std::fs::remove_dir_all(&self.0);
+  }
+}
+
+/// Stack of the thread the programs run on (node Worker `resourceLimits.stackSizeMb`); `VH_TS_STACK_MB=0`
+/// runs them on node's main thread with its default stack (only a few thousand samlang frames).
+fn stack_mb() -> u64 {
+  std::env::var("VH_TS_STACK_MB").ok().and_then(|s| s.parse().ok()).unwrap_or(256)
+}
+
+/// Heap limit of that Worker (`resourceLimits.maxOldGenerationSizeMb`); exhausting it is `End::Budget`.
+fn heap_mb() -> u64 {
+  std::env::var("VH_TS_HEAP_MB").ok().and_then(|s| s.parse().ok()).unwrap_or(2048)
+}
+
+fn node_bin() -> String {
+  std::env::var("VH_NODE").unwrap_or_else(|_| "node".to_string())
+}
+
+/// `erase_types` + `node --check` on the result (approximation of "syntactically valid TypeScript").
+pub fn check_ts_syntax(ts: &str) -> Result<(), String> {
+  let js = erase_types(ts).map_err(|e| format!("erase: {e}"))?;
+  let dir = TmpDir::new()?;
+  let file = dir.0.join("check.cjs");
+  std::fs::write(&file, js).map_err(|e| format!("write {}: {e}", file.display()))?;
+  let out = std::process::Command::new(node_bin())
+    .arg("--check")
+    .arg(&file)
+    .stdin(std::process::Stdio::null())
+    .output()
+    .map_err(|e| format!("spawn node: {e}"))?;
+  if out.status.success() {
+    Ok(())
+  } else {
+    let err = String::from_utf8_lossy(&out.stderr);
+    // keep "file:line", the offending line, the caret line and the SyntaxError line
+    let brief: Vec<&str> = err.lines().filter(|l| !l.trim().is_empty()).take(4).collect();
+    Err(format!("node --check: {}", brief.join(" | ").replace(&format!("{}/", dir.0.display()), "")))
+  }
+}
+
+#[derive(serde::Deserialize)]
+struct DriverLine {
+  i: usize,
+  out: Vec<String>,
+  end: End,
+}
+
+/// Runs node on `driver` and returns (stdout, stderr, exit description); kills it after `deadline_ms`.
+fn run_node(driver: &std::path::Path, deadline_ms: u64) -> Result<(Vec<u8>, String, String), String> {
+  let mut child = std::process::Command::new(node_bin())
+    .arg(driver)
+    .stdin(std::process::Stdio::null())
+    .stdout(std::process::Stdio::piped())
+    .stderr(std::process::Stdio::piped())
+    .spawn()
+    .map_err(|e| format!("spawn node: {e}"))?;
+  let mut so = child.stdout.take().unwrap();
+  let mut se = child.stderr.take().unwrap();
+  let t_out = std::thread::spawn(move || {
+    let mut v = vec![];
+    let _ = so.read_to_end(&mut v);
+    v
+  });
+  let t_err = std::thread::spawn(move || {
+    let mut v = vec![];
+    let _ = se.read_to_end(&mut v);
+    v
+  });
+  let start = std::time::Instant::now();
+  let mut sleep_us = 200;
+  let status = loop {
+    match child.try_wait() {
+      Ok(Some(st)) => break format!("{st}"),
+      Ok(None) => {}
+      Err(e) => return Err(format!("wait for node: {e}")),
+    }
+    if start.elapsed().as_millis() as u64 > deadline_ms {
+      let _ = child.kill();
+      let _ = child.wait();
+      break format!("killed by the harness after {deadline_ms} ms");
+    }
+    std::thread::sleep(std::time::Duration::from_micros(sleep_us));
+    sleep_us = (sleep_us * 2).min(5000);
+  };
+  let stdout = t_out.join().map_err(|_| "stdout reader panicked".to_string())?;
+  let stderr = String::from_utf8_lossy(&t_err.join().map_err(|_| "stderr reader panicked".to_string())?).to_string();
+  Ok((stdout, stderr, status))
+}
+
+/// Runs every program in its own fresh `vm` context inside ONE node process. A program whose text
+/// cannot be erased or compiled ends with `Trap{"syntax error: ..."}`. If node itself dies while
+/// running program k that program ends with `Trap{"node died: ..."}` (`Budget` if it was the heap limit)
+/// and a second node process is started for the programs after k.
+///
+/// Limits: `timeout_ms` per program (vm watchdog; `Budget`), 64 MiB of captured output (`Budget`),
+/// `VH_TS_STACK_MB` (default 256) of stack, `VH_TS_HEAP_MB` (default 2048) of heap.
+pub fn run_ts_batch(programs: &[String], timeout_ms: u64) -> Result<Vec<Run>, String> {
+  let mut results: Vec<Option<Run>> = vec![None; programs.len()];
+  let mut erased: Vec<Option<String>> = Vec::with_capacity(programs.len());
+  for (k, p) in programs.iter().enumerate() {
+    match erase_types(p) {
+      Ok(js) => erased.push(Some(js)),
+      Err(e) => {
+        results[k] = Some(Run { out: vec![], end: End::Trap { trap: format!("syntax error: erase: {e}") } });
+        erased.push(None);
+      }
+    }
+  }
+  let mut first = 0usize;
+  loop {
+    let todo: Vec<usize> = (first..programs.len()).filter(|k| results[*k].is_none()).collect();
+    if todo.is_empty() {
+      break;
+    }
+    let dir = TmpDir::new()?;
+    let driver = dir.0.join("driver.cjs");
+    let batch = serde_json::json!({
+      "timeoutMs": timeout_ms.clamp(1, 0x7fff_ffff),
+      "maxOutBytes": MAX_OUT_BYTES,
+      "stackMb": stack_mb(),
+      "heapMb": heap_mb(),
+      "programs": todo.iter().map(|k| serde_json::json!({"i": k, "js": erased[*k].as_ref().unwrap()})).collect::<Vec<_>>(),
+    });
+    // JSON is a subset of JavaScript expressions (ES2019)
+    let text = format!("const BATCH = {};\n{DRIVER}", serde_json::to_string(&batch).map_err(|e| e.to_string())?);
+    std::fs::write(&driver, text).map_err(|e| format!("write {}: {e}", driver.display()))?;
+    let deadline = (todo.len() as u64).saturating_mul(timeout_ms.saturating_add(2000)).saturating_add(30_000);
+    let (stdout, stderr, status) = run_node(&driver, deadline)?;
+    drop(dir);
+    let mut done = 0usize;
+    for line in stdout.split(|c| *c == b'\n') {
+      if line.is_empty() {
+        continue;
+      }
+      let Ok(d) = serde_json::from_slice::<DriverLine>(line) else {
+        break; // a partial line: node died while writing
+      };
+      if done >= todo.len() || d.i != todo[done] {
+        return Err(format!("driver protocol error: unexpected result for program {}", d.i));
+      }
+      results[d.i] = Some(Run { out: d.out, end: d.end });
+      done += 1;
+    }
+    if done == todo.len() {
+      break;
+    }
+    // node died while running todo[done]
+    let k = todo[done];
+    let tail: String = {
+      let t = stderr.trim();
+      let lines: Vec<&str> = t.lines().filter(|l| !l.trim().is_empty()).collect();
+      lines.iter().rev().take(3).rev().cloned().collect::<Vec<_>>().join(" | ")
+    };
+    let end = if status == "exit status: 71" {
+      End::Budget // heap limit of the Worker reached (see ts_driver.js); output so far is lost
+    } else {
+      End::Trap { trap: format!("node died: {status}: {tail}") }
+    };
+    results[k] = Some(Run { out: vec![], end });
+    first = k + 1;
+  }
+  Ok(results.into_iter().map(|r| r.expect("every program has a result")).collect())
+}
+
+// ---------------------------------------------------------------------------------------------
+// CLI
+// ---------------------------------------------------------------------------------------------
+
+/// `vh ts-run --ts FILE [--timeout-ms N]`: prints the `Run` as one JSON line.
+/// `--ts` may be repeated as a comma separated list; then one line per program is printed.
+pub fn main_run(args: &[String]) {
+  use crate::util::{arg, arg_or};
+  let files = arg(args, "--ts").expect("--ts FILE");
+  let timeout: u64 = arg_or(args, "--timeout-ms", "10000").parse().expect("--timeout-ms N");
+  let programs: Vec<String> = files
+    .split(',')
+    .map(|f| std::fs::read_to_string(f).unwrap_or_else(|e| panic!("read {f}: {e}")))
+    .collect();
+  match run_ts_batch(&programs, timeout) {
+    Ok(runs) => {
+      for r in runs {
+        println!("{}", serde_json::to_string(&r).unwrap());
+      }
+    }
+    Err(e) => {
+      eprintln!("ts-run: {e}");
+      std::process::exit(1);
+    }
+  }
+}
+
+/// `vh ts-erase --ts FILE [--check]`: prints the JavaScript (with `--check`: only checks the syntax).
+pub fn main_erase(args: &[String]) {
+  use crate::util::{arg, flag};
+  let file = arg(args, "--ts").expect("--ts FILE");
+  let ts = std::fs::read_to_string(&file).unwrap_or_else(|e| panic!("read {file}: {e}"));
+  if flag(args, "--check") {
+    match check_ts_syntax(&ts) {
+      Ok(()) => println!("ok"),
+      Err(e) => {
+        eprintln!("ts-erase: {e}");
+        std::process::exit(1);
+      }
+    }
+    return;
+  }
+  match erase_types(&ts) {
+    Ok(js) => print!("{js}"),
+    Err(e) => {
+      eprintln!("ts-erase: {e}");
+      std::process::exit(1);
+    }
+  }
+}
+
+#[cfg(test)]
+mod tests {
+  use super::*;
+
+  fn wrap(stmts: &str) -> String {
+    format!("function _M_Main$f(a: number, b: _Str): number {{\n{stmts}  return 0;\n}}\n")
+  }
+
+  #[test]
+  fn erases_the_real_prelude() {
+    let js = erase_types(&samlang_ast::lir::ts_prolog()).unwrap();
+    assert!(js.starts_with("\n\n\nconst __Str$concat = ([, a], [, b]) => [1, a + b];\n"), "{js}");
+    assert!(js.contains("const __Process$panic = (_, [, v]) => { throw Error(v); };\n"), "{js}");
+    assert!(js.contains("const __Str$fromInt = (_, v) => [1, String(v)];\n"), "{js}");
+    assert!(!js.contains(" as ") && !js.contains(": "), "{js}");
+  }
+
+  #[test]
+  fn erases_every_statement_form() {
+    let ts = "type i31 = number;\n\
+type _M_T = [(t0: any, t1: (t0: number) => _Str) => number, any, i31, [number, _M_T][]];\n\
+const GLOBAL_STRING_0: _Str = [0, `a: number as unknown as T \\` ${`x${1}`} '\"` as unknown as number];\n\
+function _M_Main$f(a: number, f: (t0: any) => (t0: number) => number): _Str {\n  \
+let p = typeof a === 'object';\n  \
+let n = !p;\n  \
+let d = Math.floor(a / -3);\n  \
+let c = Number(a <= 2147483647);\n  \
+let s = Number(GLOBAL_STRING_0[1] !== b[1]);\n  \
+let x = a >>> 1;\n  \
+let y = a + -2147483648;\n  \
+let k = f as unknown as (t0: any) => number;\n  \
+let i: number = a[12];\n  \
+let r: _M_T = f(a, 1, GLOBAL_STRING_0);\n  \
+f();\n  \
+var v: (t0: any) => number;\n  \
+if (p) {\n    v = 1;\n  } else {\n    v = f;\n  }\n  \
+if (!n) {\n    let late: any = undefined as any;\n    late = a;\n  }\n  \
+let acc: number = 0;\n  \
+let out: _Str;\n  \
+while (true) {\n    if (c) {\n      out = GLOBAL_STRING_0;\n      break;\n    }\n    acc = x;\n  }\n  \
+let st: _M_T = [f, 0, 3, a];\n  \
+let e: _M_T = [];\n  \
+return out;\n}\n\n_M_Main$f();\n";
+    let js = erase_types(ts).unwrap();
+    let want = "\n\n\
+const GLOBAL_STRING_0 = [0, `a: number as unknown as T \\` ${`x${1}`} '\"`];\n\
+function _M_Main$f(a, f) {\n  \
+let p = typeof a === 'object';\n  \
+let n = !p;\n  \
+let d = Math.floor(a / -3);\n  \
+let c = Number(a <= 2147483647);\n  \
+let s = Number(GLOBAL_STRING_0[1] !== b[1]);\n  \
+let x = a >>> 1;\n  \
+let y = a + -2147483648;\n  \
+let k = f;\n  \
+let i = a[12];\n  \
+let r = f(a, 1, GLOBAL_STRING_0);\n  \
+f();\n  \
+var v;\n  \
+if (p) {\n    v = 1;\n  } else {\n    v = f;\n  }\n  \
+if (!n) {\n    let late = undefined;\n    late = a;\n  }\n  \
+let acc = 0;\n  \
+let out;\n  \
+while (true) {\n    if (c) {\n      out = GLOBAL_STRING_0;\n      break;\n    }\n    acc = x;\n  }\n  \
+let st = [f, 0, 3, a];\n  \
+let e = [];\n  \
+return out;\n}\n\n_M_Main$f();\n";
+    assert_eq!(js, want);
+    assert_eq!(js.lines().count(), ts.lines().count());
+  }
+
+  #[test]
+  fn fallback_accepts_type_free_arithmetic_only() {
+    for ok in ["  let x = Math.trunc(a / b);\n", "  let x = (a + b) | 0;\n", "  let x = Math.imul(a, b);\n", "  let x = a < b;\n"] {
+      erase_types(&wrap(ok)).unwrap_or_else(|e| panic!("{ok}: {e}"));
+    }
+    for bad in [
+      "  let x = a as number;\n",
+      "  let x = <number>a;\n",
+      "  let x = f<number>(a);\n",
+      "  let x = a ? b : c;\n",
+      "  let x = \"s\";\n",
+      "  let x = `s`;\n",
+      "  let x = a!;\n  let y = {};\n",
+      "  let x = a // c\n;\n",
+    ] {
+      assert!(erase_types(&wrap(bad)).is_err(), "{bad}");
+    }
+  }
+
+  #[test]
+  fn rejects_what_the_printer_never_emits() {
+    for bad in [
+      "  let x: number | string = a;\n",
+      "  let x: Array<number> = a;\n",
+      "  let x: { a: number } = a;\n",
+      "  let x: number = a as number;\n",
+      "  let x: number = a.b;\n",
+      "  let x: number = a[b];\n",
+      "  let x: number = f(a + 1);\n",
+      "  let x: number = f(a,b);\n",
+      "  const x = a;\n",
+      "  for (;;) {\n  }\n",
+      "  if (a) {\n  let x = !a;\n  }\n",
+      "  if (a) {\n    return 1;\n  }\n",
+      "  break;\n",
+      "  } else {\n",
+      "  while (a) {\n  }\n",
+      "  if (a == 1) {\n  }\n",
+      "  x = a\n",
+      "  let x = !a; let y = !a;\n",
+      "\tlet x = !a;\n",
+      "  let é = !a;\n",
+      "  return 1;\n",
+    ] {
+      assert!(erase_types(&wrap(bad)).is_err(), "{bad}");
+    }
+    for bad in [
+      "interface A {}\n",
+      "type A = number | string;\n",
+      "type A<T> = T;\n",
+      "type A = number\n",
+      "function f(a?: number): number {\n  return 0;\n}\n",
+      "function f(a: number) {\n  return 0;\n}\n",
+      "function f(a: number): number {\n}\n",
+      "function f(a: number): number {\n  return 0;\n",
+      "const f = (a: number): number => a ? 1 : 2;\n",
+      "const f = (a: number): number => { let x: number = a; return x; };\n",
+      "const f = (a: number): number => `x`;\n",
+      "const f = <T>(a: T): T => a;\n",
+      "const GLOBAL_STRING_0: _Str = [0, `a`b` as unknown as number];\n",
+      "const GLOBAL_STRING_0: _Str = [0, `a${b` as unknown as number];\n",
+      "const GLOBAL_STRING_0: _Str = [0, `a${1/2}` as unknown as number];\n",
+      "const GLOBAL_STRING_0: _Str = [0, `a` as unknown as number]; f();\n",
+      "const GLOBAL_STRING_0: _Str = [0, `a`];\n",
+      "let x = 1;\n",
+      "f(1);\n",
+    ] {
+      assert!(erase_types(bad).is_err(), "{bad}");
+    }
+  }
+
+  #[test]
+  fn string_constants_are_copied_verbatim() {
+    let line = "const GLOBAL_STRING_7: _Str = [0, `q\"q \\\\ \\n \\\" : as unknown as number]; é 漢 😀 ${'}`'} $ { } \\${ \\`` as unknown as number];\n";
+    let js = erase_types(line).unwrap();
+    assert_eq!(js, line.replace(": _Str", "").replace("` as unknown as number];\n", "`];\n"));
+  }
 }
